@@ -220,6 +220,16 @@ class ExporterModel(object):
                 self._emit(blk)
                 wrote = True
             return {'wrote': wrote}
+        if o == 'rotate_bad':
+            # rotation to a destination that cannot be opened: the current output is closed, there is no output until the next rotation
+            wrote = False
+            if op['export']:
+                wrote = self._write_block()
+            closing = self.blocks_written > 0
+            self.outputs[-1]['closed_by'] = 'rotate'
+            self.outputs.append({'id': op['id'], 'blocks': [], 'nbps': len(self.bps), 'closed_by': None, 'bps_header': None, 'void': True})
+            self.blocks_written = 0
+            return {'wrote': wrote or closing, 'throws': True}
         if o == 'rotate':
             wrote = False
             if op['export']:
